@@ -102,7 +102,7 @@ def st_tape(draw, maxlen=48):
 
 
 @st.composite
-def st_dw_case(draw, tier="quick", versions=(6, 2, 3, 7, 8), maxdim=3, lmin_max=2, maxev_hi=None, margins=(0.9, 0.5, 1.0, 0.0),
+def st_dw_case(draw, tier="quick", versions=(6, 6, 6, 2, 3, 7, 8), maxdim=3, lmin_max=2, maxev_hi=None, margins=(0.9, 0.5, 1.0, 0.0),
                safeties=(0.1, 0.0, 0.5)):
     dim = draw(st.integers(1, maxdim))
     lmin = draw(st.integers(1, lmin_max))
